@@ -216,7 +216,7 @@ def eval_spec(spec):
             viol(f"C11/pgdb/{kind}/raises", f"generic counterpart of {fam}: {type(e).__name__}: {e}")
     # --- several data sets through ONE loss object and ONE algorithm object (calc_estimate_sequence, then the same
     #     objects again in a second call): every element must be the estimate fresh objects give for that data set, and must
-    #     not be beaten (independent loss formula, that element's data) by the truth or by the fresh estimate
+    #     not be beaten (independent loss formula, that element's data) by the fresh estimate
     if spec["sys"] == "1qubit" and kind != "qmpt" and res.k <= 150 and (spec["salt"] % 2 == 0 or 900 <= spec["salt"] % 1000):
         shots_b = 37 if spec["shots"] == "exact" else max(7, int(spec["shots"]) // 3)
         empi_b = L.fewshot_data(g, qt, true, shots_b)
@@ -233,7 +233,7 @@ def eval_spec(spec):
             fb = lambda v: ref_loss(fam, qt, empi_b, v)  # noqa
             for j, (got, want, lossf) in enumerate([(seq[0], xhat, f), (seq[1], fresh_b, fb), (seq[2], xhat, f), (seq[3], fresh_b, fb)]):
                 dj = float(np.linalg.norm(got - want))
-                gapj = lossf(got) - min(lossf(want), lossf(to_var(qt, true)))
+                gapj = lossf(got) - lossf(want)      # (optimality against the truth etc. is the job of the certificate below)
                 if dj > 1e-7 or gapj > 1e-6 * max(1.0, abs(lossf(got))):
                     viol(f"C11/pgdb/{kind}/stale-data-in-reused-loss-object",
                          f"{fam}: element {j} of [a, b, a | b] through one loss object differs from the fresh estimate by {dj:.3e}; "
